@@ -33,9 +33,10 @@ ASSUMPTIONS = ["a crash is os._exit at the failpoint (no Python-level cleanup ru
                "bounded recovery: the first call after faults stop may recompute, the third must be served"]
 TIMEOUT = 1800
 WORKERS = {"quick": 16, "thorough": 16}
-SCENARIOS_QUICK = ["first", "same_bytes", "override", "exception", "big", "big_small_cache", "array_small_cache", "partition_chain"]
+SCENARIOS_QUICK = ["first", "same_bytes", "override", "override_shared", "exception", "big", "big_small_cache", "array_small_cache", "partition_chain"]
 SCENARIOS_ALL = ["first", "same_bytes", "after_forget", "override", "none_override", "partition", "metadata_path",
-                 "memory_cache", "exception", "big", "big_same_bytes", "big_small_cache", "array_small_cache", "partition_chain"]
+                 "memory_cache", "exception", "big", "big_same_bytes", "big_small_cache", "array_small_cache", "partition_chain",
+                 "override_shared"]
 VARIANTS = ["crash-before", "crash-mid", "error", "error-write", "fsize"]
 BIG = 300 * 1024
 
@@ -52,7 +53,7 @@ def table(scenario):
     from twosigma.memento.partition import InMemoryPartition
     from twosigma.memento.result import KeyOverrideResult
 
-    if scenario == "override":
+    if scenario in ("override", "override_shared"):
         return lambda: KeyOverrideResult("payload-" + "z" * 40, "ovr/key1")
     if scenario == "none_override":
         return lambda: KeyOverrideResult(None, "ovr/key1")
@@ -75,7 +76,7 @@ def table(scenario):
 def expected(scenario):
     from twosigma.memento.partition import InMemoryPartition
 
-    if scenario == "override":
+    if scenario in ("override", "override_shared"):
         return ("ret", "payload-" + "z" * 40)
     if scenario == "none_override":
         return ("ret", None)
@@ -102,7 +103,31 @@ def install(root, scenario):
     st = env.fs_backend(os.path.join(root, "data"), cache_mb=cache, metadata_path=meta)
     env.set_env(os.path.join(root, "env"), default_storage=st)
     ffuncs.TABLE["s"] = table(scenario)
+    if scenario == "override_shared":
+        # two earlier calls of another function stored their (different) results under the override key that the
+        # faulted call is going to write to
+        from twosigma.memento.result import KeyOverrideResult
+
+        for k in (1, 2):
+            ffuncs.TABLE["setup|%d" % k] = (lambda k=k: KeyOverrideResult("earlier-%d-" % k + "e" * 30, "ovr/key1"))
     return st
+
+
+def others(scenario):
+    """(value ok?, body executions) of the calls that stored under the shared override key before the fault."""
+    from vf import ffuncs
+    from vf.recorder import REC
+
+    out = []
+    if scenario == "override_shared":
+        for k in (1, 2):
+            mark = REC.mark()
+            try:
+                got = ffuncs.pair("setup", k)
+            except Exception as e:
+                got = "raise %s: %s" % (type(e).__name__, str(e)[:100])
+            out.append([got == "earlier-%d-" % k + "e" * 30, len(REC.since(mark)), repr(got)[:80]])
+    return out
 
 
 _KEPT = []
@@ -174,6 +199,9 @@ def faulted_child(arg):
     elif scenario == "after_forget":
         ffuncs.produce("s")
         ffuncs.produce.forget("s")
+    elif scenario == "override_shared":
+        ffuncs.pair("setup", 1)
+        ffuncs.pair("setup", 2)
     elif scenario == "none_override":
         from twosigma.memento.result import KeyOverrideResult
 
@@ -214,6 +242,7 @@ def faulted_child(arg):
     # the process lives on after an injected error: the same calls again, and the twin function
     res["same_process"] = [outcome(fn_f(scenario), scenario), outcome(fn_g(scenario), scenario),
                            outcome(fn_f(scenario), scenario), outcome(fn_g(scenario), scenario)]
+    res["others"] = others(scenario)
     return res
 
 
@@ -221,7 +250,8 @@ def recovery_child(arg):
     from vf import ffuncs
 
     install(arg["root"], arg["scenario"])
-    res = {"f": outcome(fn_f(arg["scenario"]), arg["scenario"]), "g": outcome(fn_g(arg["scenario"]), arg["scenario"])}
+    res = {"f": outcome(fn_f(arg["scenario"]), arg["scenario"]), "g": outcome(fn_g(arg["scenario"]), arg["scenario"]),
+           "others": others(arg["scenario"])}
     if arg.get("forget"):
         # at the very end: the call is forgotten (whatever the interrupted write left behind) and made once more
         try:
@@ -349,6 +379,15 @@ def run_case(case):
                     fail("a fresh process on the damaged store dies " + sigbase, "%s: process %d: %s" % (label, k + 1, str(e)[-400:]))
                     break
             for k, r in enumerate(runs):
+                for n_o, (ok, ran, shown) in enumerate(r.get("others", [])):
+                    out["obs"]["recovery_calls_judged"] += 1
+                    if not ok:
+                        fail("after the fault a call fails or returns a wrong value " + sigbase,
+                             "%s: fresh process %d, earlier call %d under the shared override key -> %s" % (label, k + 1, n_o + 1, shown))
+                    if k == 2 and ran:
+                        fail("memoization does not recover: the body still runs in the third fresh process " + sigbase,
+                             "%s: earlier call %d under the shared override key ran %s times in fresh processes 1/2/3"
+                             % (label, n_o + 1, "/".join(str(x["others"][n_o][1]) for x in runs)))
                 for who in ("f", "g"):
                     out["obs"]["recovery_calls_judged"] += 1
                     if not r[who][0]:
